@@ -111,7 +111,11 @@ class DataFlow:
                         self._add(name, n, "assign", st.value, slot, st)
             elif isinstance(st, ast.AugAssign):
                 for name, tgt, slot in _targets(st.target):
-                    if name:
+                    if name and isinstance(st.op, ast.Add) and isinstance(st.value, ast.List) and st.value.elts:
+                        # x += [a, b]  is list growth, like x.append(a); x.append(b)
+                        for el in st.value.elts:
+                            self._add(name, n, "append", el, (), st)
+                    elif name:
                         self._add(name, n, "aug", st.value, (), st)
                     else:
                         base = tgt
